@@ -27,6 +27,8 @@ def binnify_body(env, p):
     pd = _pd(env)
     b, nch, maxbins = p["b"], p["nchroms"], p["maxbins"]
     names = [f"c{i}" for i in range(nch)]
+    if p.get("names") == "unsorted":
+        names = names[::-1]       # the given order is not the lexicographic one: it must be kept
     lens = [env.int(f"L{i}", 1, maxbins * b) for i in range(nch)]
     cs = pd.Series(env.array(lens, "int64"), index=names)
     out = util.binnify(cs, b)
@@ -60,6 +62,7 @@ def _binnify_cases(tier):
     for b in ((1, 2, 3) if tier == "quick" else (1, 2, 3, 4, 5, 7, 8, 10, 16, 100, 1000, 10**6, 2**31 - 1, 2**31, 3 * 10**9)):
         for nch in ((1, 2) if tier == "quick" else (1, 2, 3, 4)):
             out.append(dict(b=b, nchroms=nch, maxbins=3 if tier == "quick" else (8 if nch < 3 else 4)))
+    out.append(dict(b=2, nchroms=3, maxbins=2, names="unsorted"))
     return out
 
 
@@ -100,7 +103,7 @@ def _binsize_cases(tier):
 
 
 def _chromsizes_cases(tier):
-    out = _binsize_cases(tier)
+    out = _binsize_cases(tier) + [dict(layout=[2, 1, 2], wmax=2, dup_labels=True), dict(layout=[1, 3], wmax=2, dup_labels=True)]
     if tier != "quick":
         # widths without a practical bound (genome-scale coordinates, beyond int32): get_chromsizes only reads the last end
         # (get_binsize collects the widths in a set, which the executor can only do for enumerable values)
@@ -118,6 +121,9 @@ def chromsizes_body(env, p):
     else:
         widths = real_widths(env.inputs, layout)
         bins = bins_frame(layout, widths, pd)
+    if p.get("dup_labels"):
+        # a table glued together from per-chromosome pieces without ignore_index: row labels restart in every chromosome
+        bins.index = np.array([k for nb in layout for k in range(nb)])
     cs = util.get_chromsizes(bins)
     vals = list(cs.values)
     names = list(cs.index)
